@@ -39,6 +39,8 @@ type egWorld struct {
 	li         *liWorld
 	from       uint64
 	calls      []string
+	seenRER    map[common.Hash]bool // rollup exit roots the mock has computed so far in this world
+	ended      bool
 }
 
 func (w *egWorld) close() {
@@ -106,6 +108,10 @@ func (w *egWorld) exec(r *Run, line string) {
 	ctx := context.Background()
 	if ws[0] == "new" {
 		w.open(r)
+		w.seenRER, w.ended = map[common.Hash]bool{}, false
+		return
+	}
+	if w.ended {
 		return
 	}
 	w.calls = append(w.calls, line)
@@ -152,6 +158,16 @@ func (w *egWorld) exec(r *Run, line string) {
 			w.li.override = []interface{}{}
 		}
 		obs := w.li.exec(r, strings.TrimSpace(fmt.Sprintf("blk %d %s", bn, strings.Join(toks, " "))))
+		if obs == "err constraint" {
+			// the verify mock accepts any exit root, so the rollup exit tree can return to a state it has been in before (also
+			// in the middle of a block); the syncer cannot store a recurring root (root.hash is a key) and refuses the block for
+			// good. A rollup's exit root is the root of an append-only tree, so no chain does that: outside C11 (DESIGN §0,
+			// observations). Whether `err constraint` is the right answer for THIS block is decided by the correspondence (the
+			// model answers the same op line); the world ends here
+			r.Count("world-ended:rollup-exit-root-recurs")
+			w.ended = true
+			return
+		}
 		if obs != "ok" {
 			r.Fail(fmt.Sprintf("[C11] block %d mined by the real GER contract / verify mock was answered with `%s` by the syncer", bn, obs), cp())
 			panic(stopRun{})
@@ -169,15 +185,22 @@ func (w *egWorld) exec(r *Run, line string) {
 		if !strings.HasPrefix(got, "root "+hx(cRoot[:])+" ") {
 			r.Fail(fmt.Sprintf("[C11] after %d updates the GER contract's getRoot() is %s, the node's last L1 info root is `%s`", cnt, common.Hash(cRoot).Hex(), got), cp())
 		}
+		// the node's last leaf carries a global exit root the contract knows (its own "last global exit root" may be newer than
+		// the last leaf: an update that produces an already known root adds no leaf)
 		last := w.li.exec(r, "q lastinfo")
-		cGER, err := w.ger.GetLastGlobalExitRoot(&bind.CallOpts{})
-		must(err)
-		if !strings.Contains(last, "ger="+hx(cGER[:])+" ") {
-			r.Fail(fmt.Sprintf("[C11] the GER contract's last global exit root is %s, the node's last leaf is `%s`", common.Hash(cGER).Hex(), last), cp())
+		if i := strings.Index(last, "ger="); i >= 0 && len(last) >= i+4+64 {
+			var g [32]byte
+			copy(g[:], unhx(last[i+4:i+4+64]))
+			ts, err := w.ger.GlobalExitRootMap(&bind.CallOpts{}, g)
+			must(err)
+			if ts.Sign() == 0 {
+				r.Fail(fmt.Sprintf("[C11] the node's last L1 info leaf is `%s`, a global exit root the GER contract does not have", last), cp())
+			}
 		}
 	}
 	cRER, err := w.verify.GetRollupExitRoot(&bind.CallOpts{})
 	must(err)
+	w.seenRER[cRER] = true
 	got := w.li.exec(r, "q lastrer")
 	if strings.HasPrefix(got, "root ") && !strings.HasPrefix(got, "root "+hx(cRER[:])+" ") {
 		r.Fail(fmt.Sprintf("[C11] the rollup manager (mock) computes the rollup exit root %s, the node's last recorded one is `%s`", common.Hash(cRER).Hex(), got), cp())
